@@ -39,10 +39,11 @@ def strategy(tier):
                     st.integers(0, 4), st.sampled_from([0.0, 0.0, 0.2, 1.0, 3.7, 3.95, 4.05, 6.0, 9.8, 12.0])).map(list)
     flt = st.sampled_from(["none", "none", "address", "identifier", "identifier-absent", "both"])
     jitter = st.one_of(st.just([]), st.lists(st.sampled_from([0.0, 0.0, 0.01, 0.03, 0.05]), min_size=1, max_size=7))
-    asyncc = st.builds(lambda spas, f, t, j, s, again: dict({"k": "async", "spas": spas, "filter": f, "target": t, "jitter": j, "suspend": s},
-                                                            **({"again": again} if again else {})),
+    asyncc = st.builds(lambda spas, f, t, j, s, again, blank: dict({"k": "async", "spas": spas, "filter": f, "target": t, "jitter": j, "suspend": s},
+                                                                   **({"again": again} if again else {}), **({"blank": blank} if blank else {})),
                        st.lists(spa, max_size=6, unique_by=lambda s: s[0]), flt, st.integers(0, 5), jitter,
-                       st.lists(st.sampled_from([0.0, 0.0, 0.3, 0.6, 1.5, 5.0, 12.0]), max_size=4), st.sampled_from([0, 0, 0, 1, 2, 3]))
+                       st.lists(st.sampled_from([0.0, 0.0, 0.3, 0.6, 1.5, 5.0, 12.0]), max_size=4), st.sampled_from([0, 0, 0, 1, 2, 3]),
+                       st.sampled_from([None, None, None, "identifier", "address", "both"]))
     find = st.one_of(st.none(), st.tuples(st.just("id"), st.integers(0, 6), st.sampled_from(["str", "bytes"])).map(list), st.just(["ip"]))
     sync = st.builds(lambda seq, f: dict({"k": "sync", "seq": seq}, **({"find": f} if f else {})),
                      st.lists(st.tuples(st.integers(0, 5), st.sampled_from(NAMES)).map(list), min_size=1, max_size=10), find)
@@ -87,6 +88,12 @@ def _run_async(res, case):
         ident = target.sim.vp_identifier.decode("latin-1") if target else "SPAzz:zz"
     if flt == "identifier-absent":
         ident = "SPAee:ee:ee:ee:ee:ee"
+    # a field that is not used as a filter may arrive as an empty string instead of None (an empty configuration entry)
+    blank = case.get("blank")
+    if blank not in (None, "identifier", "address", "both"):
+        raise InvalidCase(blank)
+    ctor_addr = "" if addr is None and blank in ("address", "both") else addr
+    ctor_ident = "" if ident is None and blank in ("identifier", "both") else ident
     suspend = list(case.get("suspend", []))
     out = {}
 
@@ -105,7 +112,7 @@ def _run_async(res, case):
                     await asyncio.sleep(d)
 
         try:
-            loc = GeckoAsyncLocator(tm, handler, spa_address=addr, spa_identifier=ident)
+            loc = GeckoAsyncLocator(tm, handler, spa_address=ctor_addr, spa_identifier=ctor_ident)
             t0 = W.clock.t
             n_tr = len(W.transports)
             await loc.discover()
@@ -124,7 +131,7 @@ def _run_async(res, case):
             # further discoveries on the same task manager (what the manager's sequence pump does, twice per connection):
             # each must again return a duplicate-free list with its endpoint closed and its helper tasks finished
             for r in range(int(case.get("again", 0))):
-                loc2 = GeckoAsyncLocator(tm, handler, spa_address=addr, spa_identifier=ident)
+                loc2 = GeckoAsyncLocator(tm, handler, spa_address=ctor_addr, spa_identifier=ctor_ident)
                 n2 = len(W.transports)
                 await loc2.discover()
                 for _ in range(3):
